@@ -213,10 +213,14 @@ async fn run_plan(plan: &Plan) -> Result<Outcome, String> {
 
 pub fn run(seed: u64, tier: &str, shard: usize, nshards: usize) -> ShardResult {
     let mut res = ShardResult::new("c10", seed);
-    let rt = tokio::runtime::Builder::new_multi_thread().worker_threads(3).enable_all().build().unwrap();
+    let mut rt = tokio::runtime::Builder::new_multi_thread().worker_threads(3).enable_all().build().unwrap();
     let total = if tier == "thorough" { 640 } else { 96 };
     let mut rng = Rng::derive(seed, 0xC10_000 + shard as u64);
-    for _ in 0..total / nshards.max(1) {
+    for i in 0..total / nshards.max(1) {
+        // a closed HybridCache keeps its partition files open for as long as its runtime lives: recycle the runtime regularly
+        if i % 5 == 4 {
+            std::mem::replace(&mut rt, tokio::runtime::Builder::new_multi_thread().worker_threads(3).enable_all().build().unwrap()).shutdown_background();
+        }
         let plan = gen_plan(&mut rng, tier);
         let r = rt.block_on(async { tokio::time::timeout(std::time::Duration::from_secs(600), run_plan(&plan)).await });
         res.evaluations += 1;
